@@ -729,7 +729,12 @@ impl Open for VirtualSystem {
             /* is_nonblocking = */ false,
         )));
         let fd = self.create_fd(open_file_description, OpenFlag::Directory.into())?;
-        self.fdopendir(fd)
+        let dir = self.fdopendir(fd);
+        // The returned `VirtualDir` is a snapshot of the directory entries and
+        // does not refer to the file descriptor, so nothing would ever close
+        // it (a real `DIR` closes its file descriptor in `closedir`).
+        self.current_process_mut().close_fd(fd);
+        dir
     }
 }
 
